@@ -94,7 +94,21 @@ def run(ctx):
     trans += wr.generated
     wr2, wsum2 = wakefam.run(ctx, "rpcserver")      # the handler's side: messages streamed by the caller
     wsum["schedules"] += wsum2["schedules"]
+    # single calls as scripts: every interleaving of the caller's and the handler's operations, executed on the rpc layer
+    from vlib import svcfam
+    sr, sfiles = svcfam.scripts(ctx, deep=not ctx.quick())
+    states += sr.distinct
+    trans += sr.generated
+    ssum = svcfam.run_rpc(ctx, sfiles, 1500 if ctx.quick() else 0)
     ctx.coverage = {
+        "call_scripts": {"model": "SvcCall.tla (refines Rpc.tla, checked by TLC)", "executed": ssum["scripts"], "generated": ssum["of"],
+                         "steps": ssum["steps"], "by_kind": ssum["by_kind"],
+                         "rule": "one call per script: kinds unary / oneway / client stream / server stream / bidirectional x handler outcome OK / "
+                                 "application code+message / panic x every order of the two sides' operations (<= 1 message per direction "
+                                 "exhaustively, <= 3 by simulation in the thorough tier); after every step the operation's result must be the "
+                                 "script's: request bytes at the handler, each streamed message in order, End only after everything, the "
+                                 "caller's outcome = its handler's (result bytes, code and message, non-OK after a panic), messages not "
+                                 "received before Response are skipped"},
         "wake_schedules_replayed": wsum["schedules"],
         "states": states, "transitions": trans, "traces_validated_against_impl": calls, "samples": samples, "events": events,
         "invariants": ["HandlerAtMostOnce", "OkOnlyIfServerSentOk", "StreamPrefix", "AllHandled (at every run end)"],
